@@ -287,6 +287,8 @@ impl<'t> Gen<'t> {
             if can_call { 1 } else { 0 },     // 13 assign call
             1,                                // 14 listen + say it
             if s.depth > 0 { 1 } else { 0 },  // 15 die (rare, nested)
+            if s.counters.is_empty() { 0 } else { 2 }, // 16 say arithmetic on a counter
+            2,                                // 17 say a condition / the length of a line
         ];
         match self.t.weighted(&w) {
             0 => {
@@ -388,11 +390,20 @@ impl<'t> Gen<'t> {
                 let at = self.t.pos();
                 let n = 1 + self.t.draw(3);
                 let body = self.block(&inner, n, at);
-                ops.push(Op::Repeat {
-                    counter,
-                    n: 1 + self.t.draw(3) as i64,
-                    body,
-                })
+                // mostly a few iterations; rarely many (somebody's counter or
+                // batch size: 255/256/257, 1000, 4097)
+                let n = if self.t.chance(1, 120) && s.loop_depth == 0 {
+                    [255i64, 256, 257, 1000][self.t.draw(4) as usize]
+                } else {
+                    1 + self.t.draw(3) as i64
+                };
+                let body = if n > 100 {
+                    // keep the body small: one say (and nothing that listens)
+                    vec![Op::SayLit(self.lit())]
+                } else {
+                    body
+                };
+                ops.push(Op::Repeat { counter, n, body })
             }
             10 => {
                 let line = self.new_var(VarKind::Str);
@@ -442,6 +453,21 @@ impl<'t> Gen<'t> {
                 } else {
                     ops.push(Op::Listen(Some(VarRef::Plain(v))));
                     ops.push(Op::SayIt(v))
+                }
+            }
+            16 => {
+                let c = *self.t.pick(&s.counters);
+                let op = self.t.draw(3) as u8;
+                let k = self.t.draw(12) as i64;
+                ops.push(Op::SayArith(c, op, k))
+            }
+            17 => {
+                if self.t.chance(1, 2) {
+                    let c = self.cond(s);
+                    ops.push(Op::SayCond(c))
+                } else {
+                    let v = *self.t.pick(&s.strs);
+                    ops.push(Op::SayLength(v))
                 }
             }
             _ => {
